@@ -101,15 +101,15 @@ func c15Encode(c c15Case, img1, img2 *image.NRGBA, icc, exif, xmp []byte) ([]byt
 		losslessO.ICC, losslessO.EXIF, losslessO.XMP = icc, exif, xmp
 		err := webp.Encode(&buf, src, &losslessO)
 		return buf.Bytes(), err
-	case "anim1", "anim2", "anim2lossy":
-		e := animation.NewEncoder(&buf, img1.Rect.Dx(), img1.Rect.Dy(), &animation.EncodeOptions{Quality: 60, Lossless: c.kind != "anim2lossy", LoopCount: 2})
+	case "anim1", "anim2", "anim2lossy", "anim1lossy":
+		e := animation.NewEncoder(&buf, img1.Rect.Dx(), img1.Rect.Dy(), &animation.EncodeOptions{Quality: 60, Lossless: c.kind != "anim2lossy" && c.kind != "anim1lossy", LoopCount: 2})
 		e.SetICCProfile(icc)
 		e.SetEXIF(exif)
 		e.SetXMP(xmp)
 		if err := e.AddFrame(img1, 40*time.Millisecond); err != nil {
 			return nil, err
 		}
-		if c.kind != "anim1" {
+		if c.kind != "anim1" && c.kind != "anim1lossy" {
 			if err := e.AddFrame(img2, 60*time.Millisecond); err != nil {
 				return nil, err
 			}
@@ -128,7 +128,7 @@ func checkC15(args []string) {
 	run.Rule = "product of output kind x metadata subset x blob class (all subsets with one class each; pairwise class mixes seeded); every written file is read by the strict TLA+ container reader: blobs byte-equal, VP8X flags = exactly the chunks present, image chunks byte-identical to the same encode without metadata; distinct = distinct (kind, classes) cases with at least one blob"
 	run.Assumptions = []string{"an empty (zero-length) blob may be stored as an empty chunk or omitted", "spec/Riff.tla is the reference reader"}
 	rng := rand.New(rand.NewSource(run.Seed))
-	kinds := []string{"lossy", "lossy+alpha", "lossless", "lossless+alpha", "lossless+alpha/rgba", "lossy+alpha/rgba", "lossless/gray", "lossless+alpha/generic", "anim1", "anim2", "anim2lossy",
+	kinds := []string{"lossy", "lossy+alpha", "lossless", "lossless+alpha", "lossless+alpha/rgba", "lossy+alpha/rgba", "lossless/gray", "lossless+alpha/generic", "anim1", "anim2", "anim2lossy", "anim1lossy",
 		"lossy@targetsize", "lossy+alpha@targetsize", "lossy@targetpsnr", "lossy@sharp-m6", "lossy+alpha@aq50", "lossless@q100m6", "lossless+alpha@q10m0"}
 	var cases []c15Case
 	classes := []int{2, 3, 4, 5, 6}
@@ -153,6 +153,8 @@ func checkC15(args []string) {
 			}
 		}
 		cases = append(cases, c15Case{kind: k, icc: 1}, c15Case{kind: k, exif: 1, xmp: 2}, c15Case{kind: k, icc: 7}, c15Case{kind: k, xmp: 7, exif: 6})
+		// an empty (zero-length, non-nil) blob as the LAST chunk of the file, alone and after other metadata
+		cases = append(cases, c15Case{kind: k, xmp: 1}, c15Case{kind: k, exif: 1}, c15Case{kind: k, icc: 3, xmp: 1}, c15Case{kind: k, icc: 2, exif: 1})
 		for i := 0; i < run.Pick(4, 40); i++ {
 			cases = append(cases, c15Case{kind: k, icc: rng.Intn(8), exif: rng.Intn(8), xmp: rng.Intn(8)})
 		}
@@ -167,7 +169,7 @@ func checkC15(args []string) {
 	imgs := map[string][2]*image.NRGBA{}
 	for _, k := range kinds {
 		am := 0
-		if strings.Contains(k, "+alpha") || k == "anim2" || k == "anim2lossy" {
+		if strings.Contains(k, "+alpha") || k == "anim2" || k == "anim2lossy" || k == "anim1lossy" {
 			am = 2
 		}
 		w, h := 9+rng.Intn(8), 7+rng.Intn(8)
@@ -212,7 +214,7 @@ func checkC15(args []string) {
 			vx.Fatal2("baseline demux: %v", err)
 		}
 		nontrivialMeta := len(icc)+len(exif)+len(xmp) > 0
-		if c.kind == "anim1" && nontrivialMeta {
+		if (c.kind == "anim1" || c.kind == "anim1lossy") && nontrivialMeta {
 			// a single picture may be stored as a still or as a 1-frame animation; the bitstream is then not comparable
 			// with the baseline (which is a still). Only metadata, flags and size are compared.
 			e.NFrames = 1
@@ -244,6 +246,17 @@ func checkC15(args []string) {
 			fc.X = append(fc.X, av)
 		}
 		files = append(files, fc)
+		// animations: what a player shows must not depend on the metadata either (a one-picture animation may be stored
+		// as a still or as a one-frame animation, but it is the same picture)
+		if c.kind[:4] == "anim" {
+			pa, err1 := playbackDigests(out)
+			pb, err2 := playbackDigests(base[c.kind])
+			if err1 != nil || err2 != nil {
+				run.Violate("decode-error|"+c.kind, fmt.Sprintf("%v: playback failed: %v %v", c, err1, err2), c.String())
+			} else if pa != pb {
+				run.Violate("pixels-changed|"+c.kind, fmt.Sprintf("%v: the pictures played back differ from those of the encode without metadata", c), c.String())
+			}
+		}
 		// decoded pixels identical to the metadata-free encode (stills)
 		if c.kind[:4] != "anim" {
 			a, err1 := guardedDecode(out)
@@ -265,6 +278,30 @@ func checkC15(args []string) {
 		run.Violate(key, fmt.Sprintf("%v: %s", c, why), c.String())
 	}
 	run.Finish()
+}
+
+// playbackDigests plays a file (still or animation) and returns the digests of the canvases shown.
+func playbackDigests(file []byte) (string, error) {
+	a, err := animation.DecodeBytes(file)
+	if err != nil {
+		return "", err
+	}
+	if err := a.DecodeFrames(); err != nil {
+		return "", err
+	}
+	d, err := animation.NewAnimDecoder(a)
+	if err != nil {
+		return "", err
+	}
+	s := ""
+	for d.HasNext() {
+		fr, _, err := d.NextFrame()
+		if err != nil {
+			return "", err
+		}
+		s += fmt.Sprintf("%x:", hashNRGBA(fr))
+	}
+	return s, nil
 }
 
 func sameImage(a, b image.Image) bool {
